@@ -57,6 +57,21 @@ void harness(void) {
     optable(); mkty(&ty_op, op_); mkty(&ty_id, identifier_);
     CHECK(TYPEis(&ty_op.t) == op_ && TYPEis(&ty_id.t) == identifier_, "harness self-check: hand-built types read back through TYPEis");
     leaf(&ea, "a"); leaf(&eb, "b"); leaf(&ec, "c");
+#ifdef UNARY_O1
+    /* unary variant: U = UNARY_O1 (OP_NEGATE / OP_NOT), o2 symbolic binary:  L = U ( a o2 b )   R = ( U a ) o2 b  must print differently */
+    node(&n1, o2, &ea, &eb); node(&n2, UNARY_O1, &n1, 0);
+    run_no = 0; EXPR__out(&n2, 0, OP_UNKNOWN);
+    node(&n1, UNARY_O1, &ea, 0); node(&n2, o2, &n1, &eb);
+    run_no = 1; EXPR__out(&n2, 0, OP_UNKNOWN);
+    OBS("L=[%s] R=[%s]", cap[0], cap[1]);
+    CHECK(capn[0] > 2 && capn[1] > 2, "something is printed");
+    for(i = 0; i < CAP; i++) if(cap[0][i] != cap[1][i]) same = 0;
+    CHECK(!same, "a unary operator applied to a binary expression and the binary expression of the unary operand print differently");
+    { int par = 0; for(i = 0; i < CAP; i++) if(cap[0][i] == '(') par = 1;
+      CHECK(par, "the binary operand of a unary operator is parenthesised (a unary operator binds tighter than every binary one)"); }
+    VERIF_END();
+    return;
+#endif
     /* L = (a o1 b) o2 c */
     node(&n1, o1, &ea, &eb); node(&n2, o2, &n1, &ec);
     run_no = 0; EXPR__out(&n2, 0, OP_UNKNOWN);
